@@ -362,6 +362,8 @@ def gen_case(ctx):
                                  family=rng.choice(["grid", "dyadic", "touching", "longoverlap"]))
         if fmt == "rttm":   # non-negative times with few decimals
             cs = cases.gen_continuum(rng, n_annot=n, max_units=5, allow_empty=False, labels=labels, family=rng.choice(["grid", "dyadic"]))
+            # RTTM is blank-separated: a speaker field cannot hold a space (such a file is not the continuum's RTTM form)
+            cs["ann"] = {a.replace(" ", "_"): us for a, us in cs["ann"].items()}
         if fmt == "csv" and rng.random() < 0.25:
             # fields that start with a blank (csv leaves them unquoted): the tool must read the file exactly as the API does
             cs["ann"] = {(" " + a if rng.random() < 0.5 else a): [[u[0], u[1], (" " + u[2]) if rng.random() < 0.5 else u[2]] for u in us]
